@@ -32,7 +32,8 @@ def run_search(pid, only=None, timeout=3600, scale=1):
         lock = os.path.join(VERIF, 'search', 'Cargo.lock')
         if os.path.exists(lock):
             shutil.copy(lock, os.path.join(root, 'Cargo.lock'))
-        env = dict(os.environ, CARGO_NET_OFFLINE='true', CARGO_TARGET_DIR=CACHE, VERIF_SEARCH_SCALE=str(scale))
+        # CARGO_INCREMENTAL=0: every run builds from a fresh scratch path, so incremental state is never reused and only piles up (25 GB in a day)
+        env = dict(os.environ, CARGO_NET_OFFLINE='true', CARGO_TARGET_DIR=CACHE, VERIF_SEARCH_SCALE=str(scale), CARGO_INCREMENTAL='0')
         # the target directory (dependency cache) is shared between runs; two checks running at the same time against DIFFERENT trees would
         # overwrite each other's binary between build and execution, so build + private copy happen under a file lock
         import fcntl
